@@ -41,11 +41,23 @@ def run(ctx):
         import json
         batches = [json.loads(l) for l in open(reuse)]
     else:
-        sim = ctx.tlc("promql_indep", "QueryGen", "SIM.cfg", simulate=(8 if q else 120), depth=600, workers=4,
+        sim = ctx.tlc("promql_indep", "QueryGen", "SIM.cfg", simulate=(6 if q else 120), depth=600, workers=4,
                       timeout=(200 if q else 1500))
         ctx.account(sim)
         batches = sim.emitted
-    ctx.log("QueryGen: %d batches, %d queries" % (len(batches), sum(len(b["batch"]) for b in batches)))
+    nwalk = len(batches)
+    if not (reuse and os.path.exists(reuse)):
+        # every template once over representative leaves (exhaustive enumeration by TLC, one query per initial
+        # state), grouped into batches of 12 in seeded order
+        import random
+        en = ctx.tlc("promql_indep", "QueryGen", "MC_enum.cfg", workers=4, timeout=900)
+        ctx.account(en)
+        singles = [b["batch"][0] for b in en.emitted]
+        random.Random(ctx.seed).shuffle(singles)
+        batches = batches + [{"data": "full", "batch": singles[i:i + 12]} for i in range(0, len(singles), 12)]
+        ctx.extra["c33_enumerated_template_queries"] = len(singles)
+    ctx.log("QueryGen: %d random batches + %d batches enumerating every template, %d queries"
+            % (nwalk, len(batches) - nwalk, sum(len(b["batch"]) for b in batches)))
     if not batches:
         raise vlib.Infra("no batches generated")
     ctx.samples = [{"data": b["data"], "queries": [x["q"] for x in b["batch"][:4]]} for b in batches[:3]]
@@ -59,7 +71,7 @@ def run(ctx):
     # thorough: the same run under the Go race detector (a data race between two evaluations is a
     # dependence even when it did not corrupt a result this time)
     if not q or os.environ.get("VERIF_C33_RACE"):
-        sub = ctx.write_ndjson("batches_race.ndjson", batches[:60])
+        sub = ctx.write_ndjson("batches_race.ndjson", batches[:60] + batches[-40:])
         gr2 = ctx.go_test("promql", ["c33_indep_test.go"], "^TestVerifC33$", race=True, out_name="result_race.ndjson",
                           env={"VERIF_IN": sub, "VERIF_TRACE": ctx.tmp("trace_race.ndjson")}, timeout="60m")
         races = gr2.out.count("WARNING: DATA RACE")
@@ -67,7 +79,7 @@ def run(ctx):
         if races:
             i = gr2.out.index("WARNING: DATA RACE")
             ctx.add_violation("Go race detector: %d data race report(s) while evaluating generated queries concurrently:\n%s"
-                              % (races, gr2.out[i:i + 3000]), "data-race", {"batches": len(batches[:60])})
+                              % (races, gr2.out[i:i + 3000]), "data-race", {"batches": len(batches[:60] + batches[-40:])})
         else:
             ctx.absorb(gr2, label="C33 race run")
         ctx.log("race-detector run: %d reports (%.0fs)" % (races, gr2.wall))
